@@ -31,7 +31,8 @@ func NewBufferedFile(file *os.File, fileSize int64) *BufferedFile {
 	}
 
 	bytesRead, err := bufferedFile.file.Read(bufferedFile.buffer)
-	if err != nil {
+	// an empty file answers io.EOF on the first read
+	if err != nil && err != io.EOF {
 		panic(err)
 	}
 	bufferedFile.maxOffset = int64(bytesRead)
